@@ -397,15 +397,27 @@ func (e *Enc) templateReplay(o *Oblig, scratch string) (src string, vals map[str
 	}
 	var names []string
 	var terms []Term
+	var strNames []string
+	var extraTerms []Term
+	const maxStr = 64
 	for _, rv := range e.fc.ReplayVals {
 		sv, ok := e.replayTerm[rv.Name]
 		if !ok {
 			continue
 		}
+		if sv.Sort == "Str" {
+			// strings: length plus the first maxStr characters
+			strNames = append(strNames, rv.Name)
+			extraTerms = append(extraTerms, sx("str-len", sv.T))
+			for k := 0; k < maxStr; k++ {
+				extraTerms = append(extraTerms, tSel(sx("str-data", sv.T), tInt(int64(k))))
+			}
+			continue
+		}
 		names = append(names, rv.Name)
 		terms = append(terms, sv.T)
 	}
-	if len(terms) == 0 {
+	if len(terms) == 0 && len(strNames) == 0 {
 		return "", nil, "no replay values"
 	}
 	// small models first: bound every integer replay value
@@ -415,10 +427,14 @@ func (e *Enc) templateReplay(o *Oblig, scratch string) (src string, vals map[str
 			small = append(small, tLe(terms[i], "4096"), tLe("(- 4096)", terms[i]))
 		}
 	}
+	for _, n := range strNames {
+		small = append(small, tLe(sx("str-len", e.replayTerm[n].T), tInt(maxStr)))
+	}
+	allTerms := append(append([]Term{}, terms...), extraTerms...)
 	tag := sanitize(o.Name)
-	st, got, raw := runZ3Values(e.qfQuery(o, small, terms), scratch, tag+"_t1", 5)
+	st, got, raw := runZ3Values(e.qfQuery(o, small, allTerms), scratch, tag+"_t1", 5)
 	if st != "sat" {
-		st, got, raw = runZ3Values(e.qfQuery(o, nil, terms), scratch, tag+"_t2", 10)
+		st, got, raw = runZ3Values(e.qfQuery(o, nil, allTerms), scratch, tag+"_t2", 10)
 	}
 	if st != "sat" {
 		return "", nil, "quantifier-free weakening: " + firstLines(raw, 2)
@@ -433,6 +449,16 @@ func (e *Enc) templateReplay(o *Oblig, scratch string) (src string, vals map[str
 			iv, _ := smtIntValue(v)
 			vals[n] = iv
 		}
+	}
+	for _, n := range strNames {
+		t := e.replayTerm[n].T
+		ln, _ := smtIntValue(got[parseSx(sx("str-len", t)).String()])
+		var bs []byte
+		for k := int64(0); k < ln && k < maxStr; k++ {
+			c, _ := smtIntValue(got[parseSx(tSel(sx("str-data", t), tInt(k))).String()])
+			bs = append(bs, byte(((c%256)+256)%256))
+		}
+		vals[n] = strconv.Quote(string(bs)) // a Go string literal
 	}
 	vals["Label"] = o.Label
 	vals["Kind"] = o.Kind
